@@ -1109,9 +1109,9 @@ func c06Direct(es []Ev) (term string, human string, hang bool) {
 	return cApp("BuildCase", cEvs(es), urls, times, impl, iter), human + " :: " + evsString(es), hang
 }
 
-// c06CoqTree renders the value part of a document (events between the header and the end) as a
-// term of CE.Model.Build.dt; ok=false when the stream has record types or is not a complete tree.
-func c06CoqTree(es []Ev) (string, bool) {
+// c06CoqTree renders a document as terms of CE.Model.Build: its record type declarations
+// (list rtdecl) and its value (dt); ok=false when the stream is not a complete document tree.
+func c06CoqTree(es []Ev) (rtsTerm string, tree string, ok bool) {
 	body := []Ev{}
 	for _, e := range es {
 		if e.K != "pad" && e.K != "cm" {
@@ -1119,11 +1119,11 @@ func c06CoqTree(es []Ev) (string, bool) {
 		}
 	}
 	if len(body) < 4 || body[0].K != "bd" || body[1].K != "v" || body[len(body)-1].K != "ed" {
-		return "", false
+		return "", "", false
 	}
 	body = body[2 : len(body)-1]
 	pos := 0
-	ok := true
+	ok = true
 	var value func() string
 	seq := func() []string {
 		out := []string{}
@@ -1202,11 +1202,17 @@ func c06CoqTree(es []Ev) (string, bool) {
 		}
 		return cApp("TLeaf", cEv(e))
 	}
+	rts := []string{}
+	for pos < len(body) && body[pos].K == "rt" {
+		name := body[pos].Data
+		pos++
+		rts = append(rts, cPair(cBytes(name), cList(seq())))
+	}
 	t := value()
 	if pos != len(body) {
 		ok = false
 	}
-	return t, ok
+	return cList(rts), t, ok
 }
 
 // ---------------------------------------------------------------------------
@@ -1233,7 +1239,13 @@ func c06WrapDoc(body ...Ev) []Ev {
 }
 
 // tree generator for the fragment the untyped builder handles
+type c06RecType struct {
+	name  string
+	arity int
+}
+
 type c06Gen struct {
+	recs  []c06RecType
 	r     *rand.Rand
 	g     *EvGen
 	ids   int
@@ -1388,7 +1400,19 @@ func (q *c06Gen) value(depth int, pos string, inMarked bool) []Ev {
 		out = append(out, q.leaf()...)
 	} else {
 		fan := r.Intn(5)
-		switch r.Intn(3) {
+		kind := r.Intn(3)
+		if len(q.recs) > 0 && r.Intn(4) == 0 {
+			kind = 3
+		}
+		switch kind {
+		case 3:
+			rt := q.recs[r.Intn(len(q.recs))]
+			out = append(out, Ev{K: "rec", Data: []byte(rt.name)})
+			for i := 0; i < rt.arity; i++ {
+				out = q.g.trivia(out)
+				out = append(out, q.value(depth+1, "elem", inMarked)...)
+			}
+			out = append(out, Ev{K: "e"})
 		case 0:
 			out = append(out, Ev{K: "l"})
 			for i := 0; i < fan; i++ {
@@ -1430,8 +1454,38 @@ func (q *c06Gen) value(depth int, pos string, inMarked bool) []Ev {
 	return out
 }
 
+// recordTypes: declarations whose keys are booleans, 64-bit integers, UIDs and strings
+func (q *c06Gen) recordTypes() []Ev {
+	out := []Ev{}
+	q.recs = nil
+	names := map[string]bool{}
+	for n := q.r.Intn(3); n > 0; n-- {
+		name := string(q.ascii())
+		if names[name] {
+			continue
+		}
+		names[name] = true
+		out = append(out, Ev{K: "rt", Data: []byte(name)})
+		seen := map[string]bool{}
+		arity := 0
+		for j := q.r.Intn(4); j > 0; j-- {
+			k, canon := q.key()
+			if seen[canon] || k[0].K == "tm" {
+				continue
+			}
+			seen[canon] = true
+			out = append(out, k...)
+			arity++
+		}
+		out = append(out, Ev{K: "e"})
+		q.recs = append(q.recs, c06RecType{name, arity})
+	}
+	return out
+}
+
 func (q *c06Gen) document() []Ev {
 	q.ids, q.defd, q.later = 0, nil, nil
+	decls := q.recordTypes()
 	body := q.value(0, "top", false)
 	if len(q.later) > 0 {
 		// give the forward references their targets: wrap everything in a list that ends with the marked values
@@ -1447,6 +1501,7 @@ func (q *c06Gen) document() []Ev {
 		}
 		body = append(wrapped, Ev{K: "e"})
 	}
+	body = append(decls, body...)
 	return c06WrapDoc(body...)
 }
 
@@ -1465,7 +1520,8 @@ func c06Directed() []c06Input {
 	add("ok/marked-top", "mk:61 m sa:1:6b pi:1 e")
 	add("ok/marked-key", "m mk:61 sa:1:6b pi:1 sa:1:7a ref:61 e")
 	add("ok/marker-on-node-value-container", "node mk:61 l pi:1 e pi:2 ref:61 e")
-	// defect classes
+	// defect classes (the ones labelled ok/repaired-* were violations until the /repo commits f77250c, c328897,
+	// 2e3a258 and 7dbd995; they stay here as pinned witnesses)
 	add("edge", "edge pi:1 pi:2 pi:3 e")
 	add("edge-in-list", "l edge pi:1 pi:2 pi:3 e pi:4 e")
 	add("edge-in-map", "m pi:1 edge pi:1 pi:2 pi:3 e pi:2 pi:3 e")
@@ -1485,14 +1541,14 @@ func c06Directed() []c06Input {
 	add("forward-reference-in-node-value-marked", "l mk:62 node ref:61 pi:1 e mk:61 pi:7 ref:62 e")
 	add("self-reference", "l mk:61 l ref:61 e e")
 	add("self-reference-map", "mk:61 m pi:1 ref:61 e")
-	add("record", "rt:78 sa:1:61 sa:1:62 e rec:78 pi:1 pi:2 e")
-	add("record-int-keys", "rt:78 pi:1 pi:2 e rec:78 pi:5 pi:6 e")
-	add("record-two-types", "rt:78 sa:1:61 sa:1:62 e rt:79 sa:1:63 e l rec:78 pi:1 pi:2 e rec:79 pi:3 e e")
-	add("record-two-types-int-keys", "rt:78 pi:1 pi:2 e rt:79 pi:3 e l rec:78 pi:5 pi:6 e rec:79 pi:7 e e")
-	add("record-three-types", "rt:78 pi:1 pi:2 pi:3 e rt:79 pi:4 pi:5 e rt:7a pi:6 e l rec:78 t t t e rec:79 f f e rec:7a null e e")
-	add("record-empty", "rt:78 e l rec:78 e e")
-	add("record-marked", "rt:78 pi:1 e l mk:61 rec:78 l e e ref:61 e")
-	add("record-with-ref", "rt:78 pi:1 pi:2 e l mk:61 pi:9 rec:78 ref:61 mk:62 pi:8 e ref:62 e")
+	add("ok/repaired-record", "rt:78 sa:1:61 sa:1:62 e rec:78 pi:1 pi:2 e")
+	add("ok/repaired-record-int-keys", "rt:78 pi:1 pi:2 e rec:78 pi:5 pi:6 e")
+	add("ok/repaired-record-two-types", "rt:78 sa:1:61 sa:1:62 e rt:79 sa:1:63 e l rec:78 pi:1 pi:2 e rec:79 pi:3 e e")
+	add("ok/repaired-record-two-types-int-keys", "rt:78 pi:1 pi:2 e rt:79 pi:3 e l rec:78 pi:5 pi:6 e rec:79 pi:7 e e")
+	add("ok/repaired-record-three-types", "rt:78 pi:1 pi:2 pi:3 e rt:79 pi:4 pi:5 e rt:7a pi:6 e l rec:78 t t t e rec:79 f f e rec:7a null e e")
+	add("ok/repaired-record-empty", "rt:78 e l rec:78 e e")
+	add("ok/repaired-record-marked", "rt:78 pi:1 e l mk:61 rec:78 l e e ref:61 e")
+	add("ok/repaired-record-with-ref", "rt:78 pi:1 pi:2 e l mk:61 pi:9 rec:78 ref:61 mk:62 pi:8 e ref:62 e")
 	add("bit-array", "l a:6:3:05 e")
 	add("bit-array-empty", "a:6:0:")
 	add("uid-array", "l a:18:1:000102030405060708090a0b0c0d0e0f e")
@@ -1505,17 +1561,17 @@ func c06Directed() []c06Input {
 	add("resource-id-no-scheme", "l sa:2:3a666f6f e")
 	add("resource-id-rewritten", "l sa:2:687474703a2f2f782e792f61207a e")
 	add("resource-id-key", "m sa:2:687474703a2f2f782e792f7a pi:1 e")
-	add("negative-zero", "l ni:0 e")
+	add("ok/repaired-negative-zero", "l ni:0 e")
 	add("negative-zero-key", "m ni:0 pi:1 pi:0 pi:2 e")
-	add("negint-beyond-int64", "l ni:9223372036854775808 ni:18446744073709551615 e")
+	add("ok/repaired-negint-beyond-int64", "l ni:9223372036854775808 ni:18446744073709551615 e")
 	add("float16-array", "l a:15:1:c03f e")
 	add("float32-array-snan", "l a:16:1:0100a07f e")
-	add("long-array-u16", "l a:8:16:0100020003000400050006000700080009000a000b000c000d000e000f001000 e")
-	add("long-array-f64", "a:17:16:"+strings.Repeat("000000000000f03f", 16))
-	add("long-array-u8", "a:7:20:"+strings.Repeat("07", 20))
-	add("chunked-u16", "l ab:8 ac:2:false ad:01000200 pi:9 e")
-	add("chunked-u16-bytewise", "l ab:8 ac:1:false ad:01 ad:00 pi:9 e")
-	add("chunked-u32-two-chunks", "l ab:9 ac:1:true ad:01000000 ac:1:false ad:02000000 e")
+	add("ok/repaired-long-array-u16", "l a:8:16:0100020003000400050006000700080009000a000b000c000d000e000f001000 e")
+	add("ok/repaired-long-array-f64", "a:17:16:"+strings.Repeat("000000000000f03f", 16))
+	add("ok/repaired-long-array-u8", "a:7:20:"+strings.Repeat("07", 20))
+	add("ok/repaired-chunked-u16", "l ab:8 ac:2:false ad:01000200 pi:9 e")
+	add("ok/repaired-chunked-u16-bytewise", "l ab:8 ac:1:false ad:01 ad:00 pi:9 e")
+	add("ok/repaired-chunked-u32-two-chunks", "l ab:9 ac:1:true ad:01000000 ac:1:false ad:02000000 e")
 	add("empty-media-type", "l media::01 e")
 	add("null-top", "null")
 	add("empty-containers", "l l e m e node null e e")
@@ -1647,9 +1703,9 @@ func c06Process(idx int, in c06Input) c06Result {
 	res.NonTriv = len(in.Evs) > 3
 	if strings.HasPrefix(in.Label, "fragment") || strings.HasPrefix(in.Label, "directed/ok/") {
 		// backward references only: the partial theorem's fragment
-		if t, ok := c06CoqTree(in.Evs); ok && in.Label != "fragment-forward-refs" && in.Label != "directed/ok/forward-refs" {
+		if rts, t, ok := c06CoqTree(in.Evs); ok && in.Label != "fragment-forward-refs" && in.Label != "directed/ok/forward-refs" {
 			urls, times := c06LibTables(in.Evs)
-			res.FragTerm = cApp("FragCase", cEvs(in.Evs), t, urls, times, cBool(valid))
+			res.FragTerm = cApp("FragCase", cEvs(in.Evs), rts, t, urls, times, cBool(valid))
 		}
 	}
 	chunkedKey := false // record type keys are copied by the builder since /repo 7dbd995
